@@ -104,6 +104,41 @@ func genNodeCase(seed uint64, tier, focus, variant string) *simk.Case {
 		return c
 	}
 
+	// C13 x PRoPHET template: several peers qualify for one bundle in the same selection round
+	// (each advertised a higher predictability for its destination), then the bundle is dispatched again
+	if focus == "C13" && algo == "prophet" && r.Bool(0.4) {
+		np = r.Range(2, 4)
+		c.Cfg["peers"] = np
+		c.Cfg["p_init"], c.Cfg["beta"], c.Cfg["gamma"], c.Cfg["age_interval"] = 0.5, 0.25, 0.98, "30s"
+		ex.Bundles = ex.Bundles[:0]
+		sp := genSpec(r, 0, np, focus, algo)
+		sp.Src, sp.Prev, sp.Seq, sp.CT, sp.AgeMs, sp.HopLimit, sp.Unknown, sp.Flags, sp.ReportTo = "dtn://s1/app", 0, 1, "now", -1, -1, nil, 0, ""
+		if r.Bool(0.4) {
+			sp.Prev = r.Range(1, np)
+		}
+		sp.Dst = "dtn://r1/"
+		sp.LifeMs = 7200000
+		ex.Bundles = append(ex.Bundles, sp)
+		for p := 1; p <= np; p++ {
+			c.Ops = append(c.Ops, simk.Op{K: "vec", P: p, X: []int{1, r.Pick(1, 900, 500, 3)}})
+		}
+		for _, p := range r.Perm(np) {
+			c.Ops = append(c.Ops, simk.Op{K: "peer_up", P: p + 1})
+		}
+		c.Ops = append(c.Ops, simk.Op{K: "set_fail", N: int64(r.Pick(0, 0, 30))}, simk.Op{K: "deliver", B: 0, P: sp.Prev})
+		for k := r.Range(1, 3); k > 0; k-- {
+			c.Ops = append(c.Ops, simk.Op{K: "advance", N: int64(r.Range(10500, 12000))})
+			if r.Bool(0.3) {
+				c.Ops = append(c.Ops, simk.Op{K: "restart", N: 300})
+				for p := 1; p <= np; p++ {
+					c.Ops = append(c.Ops, simk.Op{K: "vec", P: p, X: []int{1, 900}}, simk.Op{K: "peer_up", P: p})
+				}
+			}
+		}
+		c.Cfg["extra"] = ex
+		return c
+	}
+
 	// C14 template: bursts of submissions whose source and creation time coincide, mixing ordinary
 	// and clock-less bundles and both submission paths, with and without a connected peer
 	if focus == "C14" && r.Bool(0.5) {
@@ -168,7 +203,7 @@ func genNodeCase(seed uint64, tier, focus, variant string) *simk.Case {
 	}
 	for len(c.Ops) < nops {
 		x := r.Intn(100)
-		if focus == "C19" && r.Bool(0.35) && np > 0 {
+		if (focus == "C19" || (focus == "C13" && algo == "prophet")) && r.Bool(0.35) && np > 0 {
 			var xs []int
 			for k := r.Range(1, 4); k > 0; k-- {
 				d := r.Range(1, 3)
@@ -268,7 +303,7 @@ func genSpec(r *simk.Rand, i, np int, focus, algo string) BSpec {
 			sp.Dst = lsNode(r.Range(1, np))
 		}
 	}
-	if focus == "C19" {
+	if focus == "C19" || (focus == "C13" && algo == "prophet") {
 		// endpoints that summary vectors talk about
 		if np > 0 && r.Bool(0.3) {
 			sp.Dst = fmt.Sprintf("dtn://p%d/", r.Range(1, np))
